@@ -473,6 +473,45 @@ func symBinopInt(fr *frame, op token.Token, bk types.BasicKind, x, y value) valu
 		}
 		return sym{k: skInt, bk: bk, t: pc.def("Int", "(- "+a+" (* "+b+" "+q+"))")}
 	}
+	switch op {
+	case token.AND, token.OR, token.XOR, token.AND_NOT, token.SHL, token.SHR:
+		_, ysym := y.(sym)
+		if !ysym {
+			c := asInt64(y)
+			switch {
+			case op == token.AND && c >= 0 && (c&(c+1)) == 0 && !bkSigned(bk):
+				return sym{k: skInt, bk: bk, t: pc.def("Int", fmt.Sprintf("(mod %s %d)", a, c+1))}
+			case op == token.SHL && c >= 0 && c < 62:
+				return sym{k: skInt, bk: bk, t: pc.def("Int", fmt.Sprintf("(* %s %d)", a, int64(1)<<uint(c)))}
+			case op == token.SHR && c >= 0 && c < 62:
+				return sym{k: skInt, bk: bk, t: pc.def("Int", fmt.Sprintf("(div %s %d)", a, int64(1)<<uint(c)))}
+			}
+		}
+		if op == token.SHL || op == token.SHR {
+			break
+		}
+		// general case through bit-vectors of the operand width (wraps like the machine operation)
+		w := bkWidth(bk)
+		ta := fmt.Sprintf("((_ int2bv %d) %s)", w, a)
+		tb := fmt.Sprintf("((_ int2bv %d) %s)", w, b)
+		var r string
+		switch op {
+		case token.AND:
+			r = "(bvand " + ta + " " + tb + ")"
+		case token.OR:
+			r = "(bvor " + ta + " " + tb + ")"
+		case token.XOR:
+			r = "(bvxor " + ta + " " + tb + ")"
+		default:
+			r = "(bvand " + ta + " (bvnot " + tb + "))"
+		}
+		bv := pc.def(fmt.Sprintf("(_ BitVec %d)", w), r)
+		t := "(bv2int " + bv + ")"
+		if bkSigned(bk) {
+			t = fmt.Sprintf("(ite (bvslt %s (_ bv0 %d)) (- (bv2int %s) %s) (bv2int %s))", bv, w, bv, new(big.Int).Lsh(big.NewInt(1), uint(w)).String(), bv)
+		}
+		return sym{k: skInt, bk: bk, t: pc.def("Int", t)}
+	}
 	panic(unsupported{fmt.Sprintf("Int binop %s", op)})
 }
 
